@@ -210,6 +210,21 @@ Section StepK2.
   Hypothesis IK : InvK g ls.
 
   (* generic: only the accounting of node cells moves; record cells and other threads' pcs are untouched *)
+  Lemma InvK_nodes' g' l l' :
+    nth_error ls t = Some l ->
+    (forall z, isrec g' z = true -> isrec g z = true) -> zlog g' = zlog g ->
+    priv_rec (at_ l') = priv_rec (at_ l) ->
+    (forall k, isnode g' k = true -> cs_of g' k = Some Alloc -> exists o, hpc g' (upd ls t l') = P_constr o k) ->
+    (forall k, isnode g' k = true -> cs_of g' k = Some Constr ->
+       In k (lst g') \/ pnode (hpc g' (upd ls t l')) = Some k \/ enode g' (upd ls t l') = Some k \/ exists z, inlog g' z /\ znd g' z = Some k) ->
+    (forall k, isnode g' k = true -> cs_of g' k = Some Destr -> exists u z, pcof (upd ls t l') u = U_df z (Some k)) ->
+    InvK g' (upd ls t l').
+  Proof.
+    intros Hl Hr EZ Hp H1 H2 H3. constructor; auto.
+    intros z Hz. rewrite EZ. destruct (k_rec _ _ IK z (Hr z Hz)) as [A|(u & A)]; [left; exact A|right].
+    exists u. rewrite (pcs_upd ls t l l' u Hl). destruct (Nat.eqb_spec u t) as [->|]; [|exact A].
+    rewrite (pcof_at _ _ _ Hl) in A. congruence.
+  Qed.
   Lemma InvK_nodes g' l l' :
     nth_error ls t = Some l ->
     (forall z, isrec g' z = true -> isrec g z = true) -> zlog g' = zlog g ->
@@ -219,12 +234,7 @@ Section StepK2.
        In k (lst g') \/ pnode (hpc g' (upd ls t l')) = Some k \/ enode g' (upd ls t l') = Some k \/ exists z, inlog g' z /\ znd g' z = Some k) ->
     (forall k, isnode g' k = true -> cs_of g' k = Some Destr -> exists u z, pcof (upd ls t l') u = U_df z (Some k)) ->
     InvK g' (upd ls t l').
-  Proof.
-    intros Hl Hr EZ Hp Hp' H1 H2 H3. constructor; auto.
-    intros z Hz. rewrite EZ. destruct (k_rec _ _ IK z (Hr z Hz)) as [A|(u & A)]; [left; exact A|right].
-    exists u. rewrite (pcs_upd ls t l l' u Hl). destruct (Nat.eqb_spec u t) as [->|]; [|exact A].
-    rewrite (pcof_at _ _ _ Hl) in A. congruence.
-  Qed.
+  Proof. intros Hl Hr EZ Hp Hp'. apply (InvK_nodes' g' l l'); auto. congruence. Qed.
 
   Lemma stepK_P_alloc pr o h its0 lo' hi' : nth_error ls t = Some (Loc pr (P_alloc o) h its0) ->
     let g' := with_pos (fst (do_alloc g (BNode dnode))) lo' hi' in
@@ -290,14 +300,14 @@ Section StepK3.
   Lemma stepK_holder g' l l' : nth_error ls t = Some l -> holds (at_ l) = true -> wmtx g' = wmtx g ->
     (forall k, isnode g' k = isnode g k) -> (forall k, cs_of g' k = cs_of g k) -> (forall k, isrec g' k = isrec g k) ->
     zlog g' = zlog g -> (forall z, grec g' z = grec g z) ->
-    (forall o k, at_ l <> P_constr o k) -> priv_rec (at_ l) = None -> priv_rec (at_ l') = None ->
+    (forall o k, at_ l <> P_constr o k) -> priv_rec (at_ l') = priv_rec (at_ l) ->
     (forall k, In k (lst g) \/ pnode (at_ l) = Some k \/ erasing_node g (at_ l) = Some k ->
                In k (lst g') \/ pnode (at_ l') = Some k \/ erasing_node g' (at_ l') = Some k) ->
     InvK g' (upd ls t l').
   Proof.
-    intros Hl Hh Hm EI EC ER EZ EG Hnc Hp Hp' Hacc.
+    intros Hl Hh Hm EI EC ER EZ EG Hnc Hp Hacc.
     destruct (h_views g g' ls t l l' IA Hl Hh Hm) as (Hp1 & Hp2 & Hmt).
-    apply (InvK_nodes g ls t IK g' l l' Hl); auto.
+    apply (InvK_nodes' g ls t IK g' l l' Hl); auto.
     - intros z. rewrite ER. auto.
     - intros k Hk Hc. rewrite EI in Hk. rewrite EC in Hc. destruct (k_alloc _ _ IK k Hk Hc) as [o E]. rewrite Hp1 in E. exfalso. apply (Hnc o k E).
     - intros k Hk Hc. rewrite EI in Hk. rewrite EC in Hc. rewrite Hp2. unfold enode. rewrite Hp2.
@@ -461,7 +471,7 @@ Proof.
   (* 3. lock / unlock *)
   all: try (
     match type of Hl with nth_error _ _ = Some {| prog := _; at_ := ?pp; hnd := _; its := _ |} =>
-      match pp with P_lock _ => idtac | E_lock _ _ => idtac end end;
+      match pp with P_lock _ => idtac | E_lock _ _ => idtac | EF_lock _ _ => idtac end end;
     match goal with |- InvK ?gg (upd _ _ ?ll) =>
       assert (SV : sameV g gg None) by (apply sameV_mtx, sameV_refl);
       assert (NS : nodes_same g gg /\ recs_old g gg) by (apply ns_heap; reflexivity);
@@ -495,7 +505,7 @@ Proof.
   all: try (
     match type of Hl with nth_error _ _ = Some {| prog := _; at_ := ?pp; hnd := _; its := _ |} =>
       match pp with P_alloc _ => fail 1 | P_constr _ _ => fail 1 | P_e1 _ _ => fail 1 | PF_head _ => fail 1 | PB_next _ _ => fail 1
-                  | E_s1 _ _ _ _ _ => fail 1 | E_alloc _ _ _ => fail 1 | _ => idtac end end;
+                  | E_s1 _ _ _ _ _ _ => fail 1 | E_alloc _ _ _ => fail 1 | _ => idtac end end;
     match type of IA with InvA ?g _ => match goal with |- InvK ?gg (upd _ _ ?ll) =>
       assert (SVx : exists x, sameV g gg x) by
         (unfold thrB in Tt; cbn [at_ hnd] in Tt; try unfold privR in Tt;
@@ -511,7 +521,7 @@ Proof.
                             let G0 := fresh "G0" in
                             destruct (hpc_holder g ls t _ IA Hl eq_refl) as [Ehp _]; pose proof (a_gs _ _ IA) as G0; rewrite Ehp in G0; cbn [at_] in G0;
                             assert (Pc0 : pubn g cc) by (apply (t_refs _ _ (a_thr _ _ IA t _ Hl)); apply in_or_app; right; left; reflexivity);
-                            apply (step_E_ld0_noop g _ cc G0 Pc0 H) end) ]
+                            apply (step_E_ld0_noop g _ cc G0 eq_refl Pc0 H) end) ]
                | (eexists; apply sameV_setn; [apply (wtarget_isnode g ls t _ _ IA Hl); reflexivity|left; reflexivity|cbn; auto]) ]);
       destruct SVx as [x0 SV];
       assert (NS : nodes_same g gg /\ recs_old g gg) by
@@ -584,7 +594,7 @@ Proof.
       | intros k1; change (isrec (commit (setn g kk nn) mm) k1) with (isrec (setn g kk nn) k1); apply isrec_setn; exact Hio
       | change (zlog (commit (setn g kk nn) mm)) with (zlog (setn g kk nn)); apply modc_fields
       | intros z1; change (grec (commit (setn g kk nn) mm) z1) with (grec (setn g kk nn) z1); apply grec_setn; exact Hio
-      | intros; discriminate | reflexivity | reflexivity
+      | intros; discriminate | reflexivity
       | change (lst (commit (setn g kk nn) mm)) with (apply_m (lst (setn g kk nn)) mm);
         replace (lst (setn g kk nn)) with (lst g) by (symmetry; apply modc_fields) ]
     end).
@@ -624,6 +634,9 @@ Proof.
   all: try (apply (stepK_zf g ls t IA IB IC IK pr n _ _ its0 _ Hl);
             [ first [apply priv_rec_reclaim | reflexivity] | first [apply holds_reclaim | reflexivity]
             | intros z1 d1; first [apply reclaim_at_not_df | discriminate] ]).
+  all: try (unfold enode; rewrite Hp1, Hp2; cbn [at_ erasing_node]; unfold thrB in Tt; cbn [at_] in Tt;
+            destruct Tt as (_ & _ & _ & Ez & _); unfold znd in *;
+            rewrite ?grec_setn by (apply (wtarget_isnode g ls t _ _ IA Hl); reflexivity); exact Ez).
 Qed.
 
 (* ---------- ~rcu_list ---------- *)
